@@ -176,7 +176,41 @@ impl<'a> Gen<'a> {
     pub fn number(&mut self) {
         let r = &mut *self.r;
         let wild = self.o.wild_numbers;
-        let s: String = match r.below(if wild { 16 } else { 6 }) {
+        let s: String = match r.below(if wild { 20 } else { 6 }) {
+            16..=19 => {
+                // every combination the grammar allows: sign, 1..25 integer digits, optional
+                // fraction, optional exponent with e/E and +/-/no sign
+                let mut s = String::new();
+                if r.chance(1, 3) {
+                    s.push('-');
+                }
+                let n = *r.pick(&[1usize, 1, 2, 2, 3, 5, 8, 15, 16, 17, 19, 20, 25]);
+                s.push((b'1' + r.below(9) as u8) as char);
+                for _ in 1..n {
+                    s.push((b'0' + r.below(10) as u8) as char);
+                }
+                if n == 1 && r.chance(1, 4) {
+                    s.pop();
+                    s.push('0');
+                }
+                if r.chance(1, 2) {
+                    s.push('.');
+                    for _ in 0..*r.pick(&[1usize, 1, 2, 3, 7, 15, 16, 17, 25]) {
+                        s.push((b'0' + r.below(10) as u8) as char);
+                    }
+                }
+                if r.chance(1, 2) {
+                    s.push(if r.chance(1, 2) { 'e' } else { 'E' });
+                    match r.below(3) {
+                        0 => s.push('+'),
+                        1 => s.push('-'),
+                        _ => {}
+                    }
+                    let lim = *r.pick(&[10u64, 30, 300]);
+                    s.push_str(&format!("{}", r.below(lim)));
+                }
+                s
+            }
             0 => "0".into(),
             1 => format!("{}", r.below(100)),
             2 => format!("-{}", r.below(1000)),
@@ -407,5 +441,29 @@ pub fn big(r: &mut Rng, approx_bytes: usize) -> Vec<u8> {
         out.extend_from_slice(&g.out);
     }
     out.push(b']');
+    out
+}
+
+/// A well-formed document nested `depth` levels (alternating arrays / objects, chosen by `r`),
+/// with scalar siblings at every level, so that deep levels are reached with small documents.
+pub fn nested(r: &mut Rng, depth: usize) -> Vec<u8> {
+    let mut out = Vec::new();
+    let mut closers = Vec::new();
+    for level in 0..depth {
+        if r.chance(1, 2) {
+            out.extend_from_slice(b"[");
+            if r.chance(1, 2) {
+                out.extend_from_slice(format!("{},", level).as_bytes());
+            }
+            closers.push(if r.chance(1, 3) { ",\"t\"]".to_string() } else { "]".to_string() });
+        } else {
+            out.extend_from_slice(format!("{{\"k{}\":", level % 3).as_bytes());
+            closers.push(if r.chance(1, 3) { format!(",\"z\":{}.5}}", level) } else { "}".to_string() });
+        }
+    }
+    out.extend_from_slice(*r.pick(&[b"null" as &[u8], b"1", b"\"leaf\"", b"[]", b"{}", b"-2.5e3"]));
+    for c in closers.iter().rev() {
+        out.extend_from_slice(c.as_bytes());
+    }
     out
 }
